@@ -49,10 +49,10 @@ BUILT = {
  "C14": ("exploration", "before/after/restart/crash snapshots around failing statements (every cause, invalid row at every position), compared with the unchanged model; later valid statements checked",
          "Held on the failing statements explored: every cause the property names, k = 1..n for n-row INSERTs, k-th overflowing row for UPDATEs, on states with splits and tombstones.",
          "which error value is returned is not judged; ids may have gaps"),
- "C04": ("fault_enumeration", "crash image before every page write and the header write of every flush (timer-equivalent, CREATE TABLE, close, recovery's own), recovered in fresh processes, compared with the model; second-level crashes inside recovery's flush",
+ "C04": ("fault_enumeration", "crash image before every page write and the header write of every flush (timer-equivalent, CREATE TABLE, close, recovery's own), recovered in fresh processes, compared with the model; second-level crashes inside recovery's flush; plus crash points at system-call level, independent of the hooks: the history re-run under strace, SIGKILL injected on entry to the n-th write call on the data file",
          "Every write of every flush of every generated history is a crash point; page orders are those the engine produced. One class of images (torn flush carrying a page allocation) is a recorded known finding and not judged.",
          "process-death crash model, no torn page writes; a table whose CREATE was in flight is not judged"),
- "C03": ("fault_enumeration", "crash image before every write and fsync a statement issues on the log (two cuts), recovered in fresh processes; prefix-state oracle; idempotence; continuation",
+ "C03": ("fault_enumeration", "crash image before every write and fsync a statement issues on the log (two cuts), recovered in fresh processes; prefix-state oracle; idempotence; continuation; plus strace-injected SIGKILL on entry to every write and fsync call on the log file (independent of the hooks)",
          "Every log write/fsync of every armed statement is a crash point, in both cuts; armed statements and prefix histories are sampled.",
          "process-death crash model; fsync cut applies to the log only; data file quiescent while logging (C13)"),
  "C01": ("exploration", "reference-model monitor: SELECT * of every table and the catalog compared with an in-memory model after every statement of seeded histories run on the real engine",
